@@ -15,7 +15,8 @@ from pyphysim.simulations.results import Result, SimulationResults
 
 ID = "C05"
 RULE = ("a runner configuration = 0-3 unpacked parameters of lengths 1-5 (lists "
-        "and arrays, distinct values) + 0-3 fixed parameters, rep_max in "
+        "and arrays; in one grid in eight a value is listed twice - lookups then "
+        "only fix values listed once) + 0-3 fixed parameters, rep_max in "
         "{1,2,3,7,50}, an early-stop predicate from a small DSL (always / stop "
         "at repetition r / accumulated count >= T / ratio below q / never after "
         "the first) and a SkipThisOne pattern (none, pseudo-random 10-40 %, "
@@ -41,7 +42,8 @@ RULE = ("a runner configuration = 0-3 unpacked parameters of lengths 1-5 (lists 
         "params[name] = values; confidence-interval lookups are compared with "
         "the matching combinations. "
         "Half of the file-backed histories use names relative to a fresh working directory (partial-results folder not yet existing, given or default). "
-        "Grids read from a config file with a validation spec (unpacked parameters of length 1 included), runners that compute their grid in _on_simulate_start, and the parallel entry point driven through an in-process stand-in for the ipyparallel view (blocking / deferred collection, wait_parallel_simulation() called repeatedly, aborted first run). ")
+        "Grids read from a config file with a validation spec (unpacked parameters of length 1 included), runners that compute their grid in _on_simulate_start, and the parallel entry point driven through an in-process stand-in for the ipyparallel view (blocking / deferred collection, wait_parallel_simulation() called repeatedly, aborted first run). "
+        "The results object of the previous run is held across the next one. ")
 ASSUMPTIONS = ["the do-while behaviour (first repetition unconditional) is the "
                "documented one", "serial simulate() only (ipyparallel absent)"]
 
@@ -208,6 +210,10 @@ def gen_spec(rng):
     for nm in names:
         n = int(rng.integers(1, 6))
         vals = rng.choice(np.arange(1, 30), size=n, replace=False)
+        if n >= 2 and rng.random() < 0.12:
+            # the same value listed more than once (the same configuration run
+            # several times): each listing is a combination of its own
+            vals[int(rng.integers(1, n))] = vals[0]
         if rng.random() < 0.5:
             vals = np.sort(vals)
         kind = rng.random()
@@ -316,6 +322,22 @@ def check_run(ctx, runner, s, tag, label, uid0, simulate=None):
                            "got_head": got_trace[:8], "want_head": want_trace[:8]})
     res = runner.results
     rr = runner.runned_reps
+    prev = getattr(runner, "_vf_previous_results", None)
+    if prev is not None and prev[0] is not res:
+        # the results object of the PREVIOUS run belongs to whoever kept it
+        def snap_of(r0):
+            return (repr(r0.runned_reps), [[list(x.get_result_accumulated_values())
+                                            for x in r0[nm]] for nm in ("ids",)
+                                           if nm in r0.get_result_names()])
+        ctx.ev("stored-results", snap_of(prev[0]) == prev[1],
+               cls="results-of-the-previous-run-changed-by-this-run",
+               detail=lambda: {**tag, "run": label, "before": prev[1], "now": snap_of(prev[0])})
+    try:
+        runner._vf_previous_results = (res, (repr(res.runned_reps), [[
+            list(x.get_result_accumulated_values()) for x in res[nm]] for nm in ("ids",)
+            if nm in res.get_result_names()]))
+    except Exception:               # noqa: BLE001 - malformed results are judged below
+        runner._vf_previous_results = None
     ctx.ev("repetition-counts", list(rr) == [w["reps"] for w in want] and
            res.runned_reps == rr, cls="runned_reps",
            detail={**tag, "run": label, "got": list(rr), "want": [w["reps"] for w in want]})
@@ -359,6 +381,11 @@ def check_lookup(ctx, runner, s, tag, rng):
         fixed_names = list(rng.choice(names, size=k, replace=False))
         fixed = {n: list(s.unpacked[n])[int(rng.integers(0, len(s.unpacked[n])))]
                  for n in fixed_names}
+        if any(list(s.unpacked[n]).count(fixed[n]) > 1 for n in fixed_names):
+            # a value listed twice has no single position: the lookup API addresses
+            # values by position and is only defined for values listed once
+            ctx.tally("lookup-skipped:value-listed-twice")
+            continue
         want_idx = [i for i, p in enumerate(plist) if all(p[n] == fixed[n] for n in fixed)]
         d = {**tag, "fixed": {k: repr(v) for k, v in fixed.items()}}
         okc, idx = ctx.call("lookup-by-fixed-values", params.get_pack_indexes, fixed, detail=d)
